@@ -371,8 +371,9 @@ func c05RemoveScenario(move bool) *Scenario {
 
 // c05SwapScenario: a redeploy of svc0 that keeps its bindings overlaps with "remove svc0; deploy svc1 on the
 // same pair" issued by another operator. Whatever the order, at most one of them may own the pair in the end.
-func c05SwapScenario(sameRoutes bool) *Scenario {
-	sc := &Scenario{Name: fmt.Sprintf("C05 redeploy-vs-remove+deploy sameRoutes=%v", sameRoutes), Horizon: 60 * time.Second}
+func c05SwapScenario(sameRoutes bool, rollout ...bool) *Scenario {
+	viaRollout := len(rollout) > 0 && rollout[0]
+	sc := &Scenario{Name: fmt.Sprintf("C05 redeploy-vs-remove+deploy sameRoutes=%v rollout=%v", sameRoutes, viaRollout), Horizon: 60 * time.Second}
 	X := "x.example.com"
 	var re, rm, other *CmdObs
 	var listed ServiceDescriptionMap
@@ -396,6 +397,11 @@ func c05SwapScenario(sameRoutes bool) *Scenario {
 			if !sameRoutes {
 				hosts = []string{X, "y.example.com"}
 			}
+			if viaRollout {
+				// a rollout deploy re-installs the service it looked up before waiting for its targets
+				re = w.RolloutDeploy("svc0", []string{"r0b:80"})
+				return
+			}
 			re = w.Deploy(deployArgs("svc0", []string{"r0b:80"}, hosts, nil))
 		})
 		vsched.GoTagged("cmd", func() {
@@ -418,6 +424,9 @@ func c05SwapScenario(sameRoutes bool) *Scenario {
 			return vs
 		}
 		for _, c := range []*CmdObs{re, other} {
+			if viaRollout && c == re && errors.Is(c.Err, ErrorServiceNotFound) {
+				continue // the service was removed before the rollout deploy looked it up
+			}
 			if c.Err != nil && !errors.Is(c.Err, ErrorHostInUse) {
 				vs = append(vs, Violation{"C05", "unexpected-error", fmt.Sprintf("%s %s: %v", c.Name, c.Args, c.Err)})
 			}
@@ -439,6 +448,9 @@ func c05SwapScenario(sameRoutes bool) *Scenario {
 			want = "r1:80"
 		case has0 && !has1:
 			want = "r0b:80"
+			if viaRollout {
+				want = "r0:80" // plain requests stay on the active target
+			}
 		}
 		if want != "" && pX.ServedBy() != want {
 			vs = append(vs, Violation{"C05", "owned-pair-not-routed-to-owner", fmt.Sprintf("%s/ is owned by the service with target %s but the request got %s", X, want, pX.Summary())})
@@ -463,7 +475,7 @@ func checkC05(t *testing.T, job *Job, res *Result) {
 	for _, c := range c05Configs(tier) {
 		scs = append(scs, c05Scenario(c))
 	}
-	scs = append(scs, c05RemoveScenario(false), c05RemoveScenario(true), c05SwapScenario(true), c05SwapScenario(false))
+	scs = append(scs, c05RemoveScenario(false), c05RemoveScenario(true), c05SwapScenario(true), c05SwapScenario(false), c05SwapScenario(true, true))
 	b := Bounds{D: 2, S: 0}
 	if tier == "thorough" {
 		b = Bounds{D: 3, S: 0}
